@@ -21,6 +21,8 @@ def stream_pool():
     P.append(("invalid", b"GET /%zz HTTP/1.1\r\nHost: a\r\nHost: b\r\nBroken\r\n\r\n", b"HTTP/1.1 abc\r\n\r\nbody"))
     P.append(("pipelined", R(b"GET", b"/1", H) + R(b"GET", b"/2", H), A(200, body=b"1") + A(200, hdrs=[(b"Content-Encoding", b"gzip")], body=gz)))
     P.append(("connect", R(b"CONNECT", b"a:443", [(b"Host", b"a:443")]) + b"\x16\x03\x01tls", A(200) + b"\x16\x03\x03srv"))
+    import lzma
+    P.append(("lzma", R(b"GET", b"/lz", H), A(200, hdrs=[(b"Content-Encoding", b"lzma")], body=lzma.compress(b"lzma coded response body " * 6, format=lzma.FORMAT_ALONE, preset=1))))
     return P
 
 
@@ -55,6 +57,10 @@ def families(ctx):
     il2 = interleavings([3, 3])          # 20 interleavings of 2 parsers x (req, res, close)
     pairs = list(itertools.permutations(range(len(P)), 2))
     rnd.shuffle(pairs)
+    # two parsers carrying the SAME kind of traffic (both compressed, both multipart, ...): where state shared through the configuration or a
+    # file-scope variable would be hit by both
+    same = [(a, a) for a in range(len(P))]
+    pairs = same + pairs
     for pi, (a, b) in enumerate(pairs[:24 if q else len(pairs)]):
         for si, sch in enumerate(il2):
             fams.append(fam_text("st2.%s+%s.k%d.s%d" % (P[a][0], P[b][0], pi % len(K), si), K[pi % len(K)], [P[a], P[b]], sch))
@@ -85,8 +91,10 @@ def families(ctx):
                 # A1 [A2 if the cut is in the response] B B B A...   : B complete (request, response, close) between A's two pieces
                 sch = ([0] if side == ">" else [0, 0]) + [1, 1, 1] + ([0, 0, 0] if side == ">" else [0, 0])
                 mids.append(custom("mid.%s+%s.%s%d" % (P[a][0], P[b][0], "q" if side == ">" else "s", p), K[(a + b + p) % len(K)], [la, lb], sch))
-    rnd.shuffle(mids)
-    fams += mids[:1200 if q else len(mids)]
+    smids = [m for m in mids if re.match(r"M mid\.(\w+)\+\1\.", m)]
+    omids = [m for m in mids if not re.match(r"M mid\.(\w+)\+\1\.", m)]
+    rnd.shuffle(omids)
+    fams += smids + omids[:1200 if q else len(omids)]
     thr = []
     for t in range(12 if q else 200):
         n = rnd.choice((2, 3, 4, 8))
